@@ -18,6 +18,96 @@ def getArg (j : Json) (k : String) : Except String Arg := do
     let m ← a.getObjValAs? String "member"
     pure (.member m)
 
+/-! ## value level: the response says WHAT came back (member of which enum / str / None) -/
+
+def retJson : PyRet → Json
+  | .member e n => Json.mkObj [("kind", "member"), ("enum", e), ("name", n)]
+  | .str s => Json.mkObj [("kind", "str"), ("s", s)]
+  | .none => Json.mkObj [("kind", "none")]
+
+def pyResJson : PyRes → Json
+  | .ok v => retJson v
+  | .error k => Json.mkObj [("err", k)]
+
+/-- `{"str": s}` | `{"member": name, "enum": class}` | `{"none": true}` -/
+def getVal (j : Json) (k : String) : Except String PyRet := do
+  let a ← j.getObjVal? k
+  match a.getObjValAs? String "str" with
+  | .ok s => pure (.str s)
+  | .error _ =>
+    match a.getObjValAs? String "member" with
+    | .ok m => do
+      let e ← a.getObjValAs? String "enum"
+      pure (.member e m)
+    | .error _ => pure .none
+
+def pairJson : Except String (PyRet × PyRet) → Json
+  | .ok (x, y) => Json.mkObj [("src", retJson x), ("dst", retJson y)]
+  | .error k => Json.mkObj [("err", k)]
+
+/-- the value-level ops; `"variant"` selects a defective variant of the model (self-test of the correspondence) -/
+def handleV : Json → Except String Json := fun j => do
+  let op ← getStr j "op"
+  let variant := (j.getObjValAs? String "variant").toOption.getD ""
+  match op with
+  | "parse_v" =>
+    let parser ← getStr j "parser"
+    let s ← getStr j "s"
+    match parser, variant with
+    | "task", _ => pure (pyResJson (taskFromValueV s))
+    | "set_task", _ => pure (retJson (setTaskV s))
+    | "frame", _ => pure (pyResJson (frameFromValueV s))
+    | "visibility", "F12" => pure (pyResJson (visibilityFromValue_F12 s))
+    | "visibility", _ => pure (pyResJson (visibilityFromValueV s))
+    | "sensor", "F12" => pure (pyResJson (sensorFromValue_F12 s))
+    | "sensor", _ => pure (pyResJson (sensorFromValueV s))
+    | "shape_type", "F12" => pure (pyResJson (shapeTypeFromValue_F12 s))
+    | "shape_type", _ => pure (pyResJson (shapeTypeFromValueV s))
+    | "policy", _ => pure (pyResJson (policyFromStrV s))
+    | p, _ => throw s!"unknown parser {p}"
+  | "shape_init" => do
+    let a ← getVal j "arg"
+    let fp ← (← j.getObjVal? "footprint").getBool?
+    pure (pyResJson (match variant with
+      | "G" => shapeInitV_G a fp
+      | "F12" => shapeInitV_F12 a fp
+      | _ => shapeInitV a fp))
+  | "transform_key_v" => do
+    let a ← getVal j "src"
+    let b ← getVal j "dst"
+    pure (pairJson (match variant with
+      | "B" => transformKeyV_B a b
+      | "J" => transformKeyV_J a b
+      | _ => transformKeyV a b))
+  | "frame_from_task" => do
+    let a ← getVal j "arg"
+    pure (pyResJson (match variant with
+      | "noconv" => frameFromTaskV_noconv a
+      | _ => frameFromTaskV a))
+  | "task_list_v" => do
+    let items ← (← getArr j "items").toList.mapM fun x => x.getStr?
+    pure (Json.mkObj [("members", Json.arr ((setTaskListsV items).map retJson).toArray)])
+  | "task_dict_v" => do
+    let keys ← (← getArr j "keys").toList.mapM fun x => x.getStr?
+    pure (Json.mkObj [("items", Json.arr ((setTaskDictV keys.zipIdx).map fun e =>
+      Json.arr #[retJson e.1, Json.num (JsonNumber.fromNat e.2)]).toArray)])
+  | "frame_ids_v" => do
+    let a ← j.getObjVal? "arg"
+    let arg ← match a with
+      | .str s => pure (FrameIdArg.one s)
+      | .arr xs => do pure (FrameIdArg.many (← xs.toList.mapM fun x => x.getStr?))
+      | _ => throw "arg must be a string or a list of strings"
+    pure (match frameIdsV arg with
+      | .ok ms => Json.mkObj [("members", Json.arr (ms.map retJson).toArray)]
+      | .error k => Json.mkObj [("err", k)])
+  | "check_task_v" => do
+    let support ← (← getArr j "support").toList.mapM fun x => x.getStr?
+    let s ← getStr j "s"
+    pure (pyResJson (checkTaskV support s))
+  | o => throw s!"unknown op {o}"
+
+/-! ## string level (the ops of the first round) -/
+
 def handle : Json → Except String Json := fun j => do
   let op ← getStr j "op"
   match op with
@@ -69,6 +159,6 @@ def handle : Json → Except String Json := fun j => do
       | .ok (some m) => Json.mkObj [("member", m)]
       | .ok none => Json.mkObj [("none", true)]
       | .error k => Json.mkObj [("err", k)])
-  | o => throw s!"unknown op {o}"
+  | _ => handleV j
 
 end PEval.Driver.C20
